@@ -397,6 +397,13 @@ class MultiSchemaPool(pool_mod.FixedPool):
                 if not isinstance(exc, state_mod.FailedStateSync):
                     worker.set_client_schema(client_id, client_schema)
             else:
+                # The call went through in the worker - including the state
+                # sync - it is only the result that could not be sent back.
+                worker.set_client_schema(client_id, client_schema)
+                if method_name == "compile":
+                    # ... and it may have replaced the worker's last
+                    # transaction state with one we know nothing about.
+                    worker._last_pickled_state = None
                 exc = RuntimeError(
                     "could not serialize result in worker subprocess"
                 )
